@@ -141,6 +141,12 @@ def synthetic_zones():
     z = T.TZif(2, [-2000000000, 1000000, 2000000, 3000000], [1, 2, 3, 2],
                [(0, False, 0), (3600, False, 4), (7200, True, 8), (3600, False, 4)], b'LMT\0XST\0XDT\0', b'XST-1XDT,M3.5.0,M10.5.0')
     out.append(Zone('syn/duplicate-types-rule', T.write(z), 'synthetic'))
+    # fat files repeat a type record (the copies differ in the isstd/isut indicators only): the last transition uses the LATER
+    # twin and the footer is standard time only
+    z = T.TZif(2, [-1830383032, 1514768400, 1546304400], [1, 2, 3], [(1616, False, 0), (0, False, 4), (3600, False, 8), (0, False, 4)], b'LMT\0GMT\0WAT\0', b'GMT0')
+    out.append(Zone('syn/twin-types-std-footer', T.write(z, indicators=True), 'synthetic'))
+    z = T.TZif(2, [-1830383032, 1514768400, 1546304400], [3, 2, 1], [(1616, False, 0), (0, False, 4), (3600, False, 8), (0, False, 4)], b'LMT\0GMT\0WAT\0', b'GMT0')
+    out.append(Zone('syn/twin-types-std-footer-first', T.write(z), 'synthetic'))
     # only type, no transitions
     z = T.TZif(2, [], [], [(3600, False, 0)], b'CET\0', b'CET-1')
     out.append(Zone('syn/notrans', T.write(z), 'synthetic'))
@@ -229,6 +235,10 @@ def rejected_zones():
         for footer in (b'', b'XST0'):
             z = T.TZif(2, [t0, t0 + gap, t0 + 40 * 86400], [1, 0, 1], [(0, False, 0), (up, True, 4)], b'XST\0XDT\0', footer)
             out.append(Zone('rejected/crossed-%d%s' % (k, '-footer' if footer else ''), T.write(z), 'rejected'))
+    # a footer rule whose daylight period is shorter than its saving: the GENERATED transitions cross in civil time every year
+    for f in (b'AAA0BBB,J100/2,J100/3:30', b'AAA0BBB-2,J100/2,J100/3', b'XST-1XDT-3,M3.2.0/2,M3.2.0/3:30'):
+        z = T.TZif(2, [946684800], [0], [(0, False, 0), (3600, True, 4)], b'AAA\0BBB\0', f)
+        out.append(Zone('rejected/generated-crossing-' + f.decode(), T.write(z), 'rejected'))
     # two transitions at the same instant: the table would not be strictly ordered by time
     z = T.TZif(2, [100000000, 200000000, 200000000, 300000000], [1, 2, 3, 1], [(0, False, 0), (3600, False, 4), (7200, False, 8), (10800, False, 12)], b'LMT\0AAA\0BBB\0CCC\0', b'')
     out.append(Zone('rejected/equal-times', T.write(z), 'rejected'))
